@@ -37,6 +37,9 @@ def Enc.add (e : Enc) (v : Int) : Except AddErr Enc :=
 def Enc.fromValues (e : Enc) (vs : List Int) : Enc :=
   { e with values := vs, max := vs.foldl (fun m v => if m < v then v else m) 0 }
 
+/-- `IsEmpty()`: `len(e.values) == 0` -/
+def Enc.isEmpty (e : Enc) : Bool := e.values.length == 0
+
 /-- `width()` -/
 def Enc.width (e : Enc) : Nat := uint32MinWidth (toU32 e.max)
 
@@ -132,5 +135,71 @@ def errOf (r : Except UErr (List Nat)) : Option UErr := match r with | .error e 
 /-- a reuse history of ONE decoder object: every input is given to `Unmarshal`, errors ignored -/
 def Dec.feed (d : Dec) (inputs : List (List Nat)) : Dec :=
   inputs.foldl (fun d i => (d.unmarshal i).2) d
+
+/-! Round 12: a decoder OBJECT under a history of calls. `Get`, `GetBlock`, `Size`, `ValueWidth` assign no field of
+the receiver in the source (regenerated facts `fixedOffsetDecoder*Writes`), so a read returns the object unchanged;
+only `Unmarshal` changes it. -/
+
+/-- one call on a `FixedOffsetDecoder` -/
+inductive DecOp
+  | unm (data : List Nat)
+  | get (i : Int)
+  | blk (i : Int) (data : List Nat)
+  | size
+  | width
+
+/-- what the call returned -/
+inductive DecAns
+  | unm (r : Except UErr (List Nat))
+  | get (o : Option Int)
+  | blk (r : Except BErr (List Nat))
+  | int (n : Int)
+
+/-- one call: answer and the object afterwards -/
+def Dec.step (d : Dec) : DecOp → DecAns × Dec
+  | .unm data => (.unm (d.unmarshal data).1, (d.unmarshal data).2)
+  | .get i => (.get (d.get i), d)
+  | .blk i data => (.blk (d.getBlock i data), d)
+  | .size => (.int d.sizeOf, d)
+  | .width => (.int d.width, d)
+
+/-- a history of calls on one object: the answers in order and the object afterwards -/
+def Dec.run (d : Dec) : List DecOp → List DecAns × Dec
+  | [] => ([], d)
+  | op :: ops => ((d.step op).1 :: ((d.step op).2.run ops).1, ((d.step op).2.run ops).2)
+
+/-- the inputs of the `Unmarshal` calls of a history, in order -/
+def unmInputs : List DecOp → List (List Nat)
+  | [] => []
+  | .unm x :: r => x :: unmInputs r
+  | _ :: r => unmInputs r
+
+/-- NOT lindb's code: a decoder with a "sequential scan cursor" — `GetBlock(i)` remembers `(i+1, offset[i+1])` and a
+following `GetBlock(i+1)` takes its start offset from there; `Unmarshal` does not drop the cursor. Used only by
+`Props.C14.Neg.scan_cursor_survives_unmarshal` to show what "reads leave no trace" protects against. -/
+structure DecC where
+  d : Dec
+  nextIndex : Int
+  nextOffset : Int
+
+def DecC.fresh : DecC := { d := Dec.fresh, nextIndex := 0, nextOffset := 0 }
+
+def DecC.unmarshal (c : DecC) (data : List Nat) : DecC := { c with d := (c.d.unmarshal data).2 }
+
+def DecC.getBlock (c : DecC) (index : Int) (dataBlock : List Nat) : Except BErr (List Nat) × DecC :=
+  let start? : Option Int := if index > 0 ∧ index = c.nextIndex then some c.nextOffset else c.d.get index
+  match start? with
+  | none => (.error .corruptedIndex, c)
+  | some startOffset =>
+    let c' : DecC := match c.d.get (index + 1) with
+      | some e => { c with nextIndex := index + 1, nextOffset := e }
+      | none => { c with nextIndex := 0 }
+    let endOffset : Int := (c.d.get (index + 1)).getD dataBlock.length
+    if startOffset < 0 ∨ endOffset < 0 ∨ endOffset < startOffset ∨ endOffset > dataBlock.length then
+      (.error .corruptedRange, c')
+    else (.ok ((dataBlock.take endOffset.toNat).drop startOffset.toNat), c')
+
+/-- decidable view of a `GetBlock` result -/
+def blkOf (r : Except BErr (List Nat)) : Option (List Nat) := match r with | .ok b => some b | .error _ => none
 
 end LinVerif.FixedOffset
